@@ -50,3 +50,18 @@ Theorem C05_nonvacuous :
   | _ => False
   end.
 Proof. exact demo_counts. Qed.
+
+(* the slot of a locally reset stream is given back exactly when its record has left the reset-expiration
+   queue, flushed or not (the behaviour repaired in /repo: before, a record that expired while its RST_STREAM
+   was still queued leaked its slot for the rest of the connection) *)
+Theorem C05_reset_slot_returned :
+  forall st key o st' outs,
+  cstep st (TransitionAfter key o) = COk st' outs ->
+  num_lreset st' = if negb (t_pending_reset o) && t_reset_counted o then num_lreset st - 1 else num_lreset st.
+Proof. exact reset_slot_returned. Qed.
+
+Theorem C05_reset_slot_fix_needed :
+  exists st key o, cstep_prefix st key o = COk st [] /\ t_pending_reset o = false /\ t_reset_counted o = true /\
+                   num_lreset st = 1 /\
+                   match cstep st (TransitionAfter key o) with COk st' _ => num_lreset st' = 0 | _ => False end.
+Proof. exact reset_slot_fix_needed. Qed.
